@@ -43,15 +43,15 @@ Section AnyItem.
   (* merge: the operand's counters replayed as updates in any order, purges wherever they fall; offsets added; total fixed up.
      Hypothesis "the operand has at least one counter": see C12_merge_purged_empty_refuted *)
   Theorem C12_fi_merge_bracket : forall a ta Ta b tb Tb h x,
-    Reach Item eqb a ta Ta -> Reach Item eqb b tb Tb -> replays Item eqb h b -> a_ents Item b <> [] ->
+    Reach Item eqb a ta Ta -> Reach Item eqb b tb Tb -> replays Item eqb h b ->
     let m := a_merge Item eqb a b h in
     a_lb Item eqb m x <= ta x + tb x <= a_ub Item eqb m x /\
     a_lb Item eqb m x <= a_est Item eqb m x <= a_ub Item eqb m x /\
     a_ub Item eqb m x - a_lb Item eqb m x = a_off Item m /\
     a_tot Item m = Ta + Tb.
   Proof.
-    intros a ta Ta b tb Tb h x Ha Hb Hr Hne m.
-    exact (fi_reach_bracket Item eqb eqb_spec m _ _ x (R_merge Item eqb a ta Ta b tb Tb h Ha Hb Hr Hne)).
+    intros a ta Ta b tb Tb h x Ha Hb Hr m.
+    exact (fi_reach_bracket Item eqb eqb_spec m _ _ x (R_merge Item eqb a ta Ta b tb Tb h Ha Hb Hr)).
   Qed.
 
   (* serialize + deserialize (counters re-inserted without purge; offset and total restored) *)
@@ -121,19 +121,6 @@ Proof. vm_compute. repeat split; reflexivity. Qed.
 (* seven distinct items of weight 1 in a map of capacity 6: the purge (median 1) removes every counter *)
 Example C12_purge_can_wipe_the_map :
   nact _ (sk_map _ purged_empty) = 0 /\ sk_tot _ purged_empty = 7 /\ sk_off _ purged_empty = 1.
-Proof. vm_compute. repeat split; reflexivity. Qed.
-
-(* merge ignores such an operand: total 5 instead of 12, upper bound of item 0 is 0 < true weight 1 *)
-Example C12_merge_purged_empty_refuted :
-  let a := feed (sk_new item 3 3) [(100, 5)] in
-  let m := sk_merge item item_eqb (fi_hash 0) a purged_empty in
-  sk_tot _ m = 5 /\ ub0 m 0 = 0.
-Proof. vm_compute. split; reflexivity. Qed.
-
-(* serialize writes the empty form for it: the round trip forgets total and offset *)
-Example C12_roundtrip_purged_empty_refuted :
-  let m := sk_roundtrip item item_eqb (fi_hash 0) purged_empty in
-  sk_tot _ m = 0 /\ sk_off _ m = 0 /\ ub0 m 0 = 0.
 Proof. vm_compute. repeat split; reflexivity. Qed.
 
 (* NO_FALSE_NEGATIVES with threshold 0 < maximum error 1 returns nothing although seven items have true weight 1 > 0 *)
